@@ -2,7 +2,7 @@
 the socket primitive may choose (no bound): get_sub_iovs_offset, Endpoint::send_iovec_all, Endpoint::recv_into_iovec_all.
 The socket primitive (send_iovec / recv_into_iovec = one sendmsg / recvmsg) is the assumed boundary (A-OS); termination
 (a peer that makes the socket return `retry` forever) is liveness and is NOT decided (exec_allows_no_decreases_clause)."""
-from vx import Unit, Source
+from vx import Unit, Source, ExtractError
 
 CONN = "vhost/src/vhost_user/connection.rs"
 
@@ -122,6 +122,20 @@ def build():
                 Err(_) => exists|k: int| 0 <= k <= flat(aviews(old(iovs)@)).len() && final(self).pos@ == old(self).pos@ + k
                     && final(self).stored@ =~= old(self).stored@ + deliver(flat(aviews(old(iovs)@)).subrange(0, k), old(self).pos@), // [C08:receiver-prefix-on-error]
             }""")
+    # ------------------------------------------------------------------ recv_into_iovec: every descriptor the kernel installed is wrapped (owned) exactly once
+    maxfd = Source("vhost/src/vhost_user/message.rs").const_value("MAX_ATTACHED_FD_ENTRIES")
+    if maxfd != "32":
+        raise ExtractError("unsupported construct: MAX_ATTACHED_FD_ENTRIES = %s (environment written for 32)" % maxfd)
+    u.extracted_fn(conn, "recv_into_iovec", within=span, rename="recv_into_iovec_real",
+                   sig_rw=[("R20", r'\bunsafe\s+fn\b', 'fn')],
+                   body_rw=[("R19", r'vec!\[0; MAX_ATTACHED_FD_ENTRIES\]', 'vec_fds_zeroed(MAX_ATTACHED_FD_ENTRIES)'),
+                            ("R20", r'self\.sock\.recv_with_fds\(iovs, &mut fd_array\)\?', 'self.sock_recv_with_fds_into(iovs, &mut fd_array)?'),
+                            ("R19", r'fd_array\s*\.iter\(\)\s*\.take\(n\)\s*\.map\(\|fd\| \{\s*File::from_raw_fd\(\*fd\)\s*\}\)\s*\.collect\(\)', 'wrap_fds(&fd_array, n)')],
+                   contract="""
+        ensures final(iovs)@ == old(iovs)@,
+            r is Err ==> final(self).raw@ == old(self).raw@, // [C09:no-raw-leak] an error is returned only when the kernel installed no descriptor: nothing received is left unowned
+            r is Ok ==> final(self).raw@ =~= old(self).raw@ + (match fids(r->Ok_0.1) { Some(s) => s, None => Seq::empty() }), // [C09:wrap-each-once] every descriptor installed by this recvmsg is owned by exactly one returned File, in order
+            r is Ok ==> (r->Ok_0.1 is Some ==> r->Ok_0.1->Some_0@.len() > 0), // [C09] a returned descriptor list is never empty""")
     # ------------------------------------------------------------------ recv_data (payload receive: loops until len bytes or end of stream)
     u.extracted_fn(conn, "recv_data", within=span,
                    body_rw=[("R19", r'vec!\[0u8; len\]', 'vec_zeroed(len)'),
